@@ -2,6 +2,7 @@ import Glom.Lemmas.C20
 import Glom.Lemmas.C20Arg
 import Glom.Lemmas.C20Err
 import Glom.Lemmas.C20Trace
+import Glom.Lemmas.C20Scope
 import Glom.Model.C20Env
 /-
   C20 — Concurrent and re-entrant glom calls behave exactly as when run alone.
@@ -88,31 +89,108 @@ theorem c20_cache_independent (max : Nat) (reg : Reg) (ev : Ev) (sh sh' : Sh) (h
   obtain ⟨n', hn'⟩ := alone_outcome max reg ev sh' h'
   exact ⟨n, n', by rw [hn, hn']⟩
 
-/-- **Re-entrancy, outcomes (`c20_nested`).**  A call made from a callable inside a running
-    call has the outcome it has alone, and the outer call goes on with that outcome as if it
-    were a constant — a value, or a failure that an outer Coalesce (the continuation `k`)
-    catches; under every schedule (by `c20_noninterference`, `nested` being an evaluation). -/
-theorem c20_nested (reg : Reg) (inner : Ev) (k : Out → Ev) :
-    denote reg (.nested inner k) = denote reg (k (denote reg inner)) := rfl
+/-- **Re-entrancy, outcomes (`c20_nested`).**  A call whose callable calls glom() itself
+    (`.nested inner k`: the micro-steps of the inner call are part of the thread's program and
+    interleave with the other threads like any others): under every schedule, when it has finished
+    its outcome is the one it has when the inner call is replaced by the constant the inner call
+    evaluates to ALONE — a value, or a failure that an outer Coalesce (the continuation `k`) catches
+    — and the inner call alone does finish with that constant. -/
+theorem c20_nested (max : Nat) (reg : Reg) (evs : List Ev) (sh0 : Sh) (h0 : Inv reg sh0) (sched : List Nat)
+    (i : Nat) (inner : Ev) (k : Out → Ev) (o : Out) (hev : evs[i]? = some (.nested inner k))
+    (hdone : ((Sys.mk sh0 (evs.map (compile max reg))).run sched).threads[i]? = some (.done o)) :
+    o = denote reg (k (denote reg inner)) ∧
+    ∃ n, (runAlone (compile max reg inner) sh0 n).1 = .done (denote reg inner) := by
+  have hok := (sysOK_run sched _ (sysOK_init max reg evs sh0 h0)).1
+  have : o = denote reg (.nested inner k) := sysOK_done hok i o _ hdone (by simp [hev])
+  exact ⟨this, alone_outcome max reg inner sh0 h0⟩
 
-/-- **Re-entrancy, scopes.**  A call made from inside a running call — `body`, itself with
-    nested calls to any depth — allocates its own frames, starting from a fresh child of the
-    default scope: every frame that existed when it started (the outer call's frames, the
-    default scope) is exactly what it was, and the outer call's chain is unchanged. -/
-theorem c20_nested_frames (h : SHeap) (chain : List Nat) (body : List SOp) :
-    (execOp h chain (.call body)).2 = chain ∧
-    ∀ a, a < h.length → (execOp h chain (.call body)).1[a]? = h[a]? := by
-  refine ⟨by simp [execOp], ?_⟩
-  intro a ha
-  have := execOps_framed h.length body (h ++ [⟨rootInit⟩]) [h.length, 0] (by simp) (by simp [List.dropLast])
-  simp only [execOp]
-  rw [this.old a ha, List.getElem?_append_left ha]
+/-! ### the scopes of calls that run concurrently: no call observes another call's target, bindings, mode or accumulators
 
-/-- any evaluation of a call writes only frames of its own chain: frames below `base` stay -/
-theorem c20_frames_any_ops (base : Nat) (ops : List SOp) (h : SHeap) (chain : List Nat) (hb : base ≤ h.length)
-    (hc : ∀ a ∈ chain.dropLast, base ≤ a) :
-    ∀ a, a < base → (execOps h chain ops).1[a]? = h[a]? :=
-  (execOps_framed base ops h chain hb hc).old
+`Glom/Model/C20Scope.lean`: ONE heap of scope maps for all threads.  `glom()` allocates the root
+map of a call under the shared default scope, `_glom` a map per evaluation step (and writes
+`LAST_CHILD_SCOPE` into the calling scope's map), specs write the target, `S`-bindings, `MODE`,
+accumulators into maps of their chain, and read through the chain down to the default scope.  Threads
+take turns operation by operation in ANY order, so allocation order and every address depend on the
+schedule.  The reference (`Spec/C20Scope.lean`) is the call alone, without heap or addresses. -/
+
+section scopes
+open Glom.C20.Sc
+
+/-- **Non-observation through scopes (`c20_scope_noninterference`).**  Any number of threads, each any
+    sequence of `start` (a glom() call; also from inside a running call of the thread, to any
+    nesting depth) / `finish` / `child` / `set` at any depth / `get` / `pop`, any default scope, ANY
+    schedule of single operations: whatever a call has read through its scope so far — its target,
+    a binding, the mode, an accumulator, an entry of the default scope — is exactly what the call
+    reads when it is alone (`locRun`, in which no other call exists), for the operations it has
+    done; and the default scope, the one map all calls share, is what it was. -/
+theorem c20_scope_noninterference (dflt : Vars) (progs : List (List Op)) (sched : List Nat) :
+    ((Sc.Sys.init dflt progs).run sched).heap[0]? = some ⟨dflt⟩ ∧
+    ∀ (i : Nat) (ops0 : List Op) (t : Sc.Thread), progs[i]? = some ops0 →
+      ((Sc.Sys.init dflt progs).run sched).threads[i]? = some t →
+      ∃ done, ops0 = done ++ t.ops ∧ t.reads = (locRun dflt done {}).reads := by
+  have inv := sinv_run sched _ (sinv_init dflt progs)
+  refine ⟨inv.h0, ?_⟩
+  intro i ops0 t h0 ht
+  obtain ⟨done, _, _, h1, _, _, h3, _⟩ := (inv.thr i t ops0 ht h0).ex
+  exact ⟨done, h1, h3⟩
+
+/-- **No thread's calls write a map of another thread's calls (`c20_scope_private`).**  After any
+    schedule the maps of the scopes of two different threads — of their running calls and of the
+    calls that wait for a nested one — are disjoint (they share the default scope only, which nobody
+    writes), so no `set` of one call — a binding, a mode switch, an accumulator update — can land in
+    a map another call reads. -/
+theorem c20_scope_private (dflt : Vars) (progs : List (List Op)) (sched : List Nat) (i j : Nat) (ti tj : Sc.Thread)
+    (hij : i ≠ j) (hi : ((Sc.Sys.init dflt progs).run sched).threads[i]? = some ti)
+    (hj : ((Sc.Sys.init dflt progs).run sched).threads[j]? = some tj) :
+    ∀ a ∈ own ti, a ∉ own tj :=
+  (sinv_run sched _ (sinv_init dflt progs)).disj i j ti tj hij hi hj
+
+/-- **Checker theorem for scope reads**: when all calls have finished, under any schedule, what they
+    read through their scopes passes `checkScope` against what they read alone. -/
+theorem c20_scope_model_checks (dflt : Vars) (progs : List (List Op)) (sched : List Nat)
+    (hall : ∀ t ∈ ((Sc.Sys.init dflt progs).run sched).threads, t.ops = []) :
+    checkScope (progs.map fun ops => (locRun dflt ops {}).reads)
+      (((Sc.Sys.init dflt progs).run sched).threads.map (·.reads)) = true := by
+  have inv := sinv_run sched _ (sinv_init dflt progs)
+  generalize (Sc.Sys.init dflt progs).run sched = s at inv hall
+  simp only [checkScope, beq_iff_eq]
+  apply List.ext_getElem?
+  intro i
+  simp only [List.getElem?_map]
+  cases ht : s.threads[i]? with
+  | none =>
+    have : progs[i]? = none := by
+      rw [List.getElem?_eq_none_iff] at ht ⊢
+      rw [← inv.len]; exact ht
+    rw [this]; rfl
+  | some t =>
+    have hil : i < progs.length := by rw [← inv.len]; exact (List.getElem?_eq_some_iff.mp ht).1
+    have h0 : progs[i]? = some progs[i] := List.getElem?_eq_getElem hil
+    rw [h0]
+    simp only [Option.map_some]
+    rw [tinv_done (inv.thr i t _ ht h0) (hall t (List.mem_of_getElem? ht))]
+
+/-- call A binds `x` and later reads it, switches its mode in a child scope; call B does the same with
+    other values -/
+private def scA : List Op :=
+  [.start [("T", "tA"), ("MODE", "AUTO")], .child [("T", "a1")], .set 1 "x" "A", .set 0 "MODE" "FILL", .get "MODE",
+   .start [("T", "inner"), ("MODE", "AUTO")], .set 0 "x" "inner-x", .get "x", .get "MODE", .finish,   -- a nested call
+   .pop, .get "x", .get "MODE", .get "T", .get "registry"]
+private def scB : List Op :=
+  [.start [("T", "tB"), ("MODE", "AUTO")], .set 0 "x" "B", .child [("T", "b1")], .get "x", .get "T", .get "MODE"]
+
+-- the theorem says something: under an interleaving in which the two calls alternate (their maps
+-- are allocated interleaved: A's root at 1, B's at 2, A's child at 3, B's child at 4) each reads its
+-- own target, binding and mode, and the shared default entry
+example : ((Sc.Sys.init [("registry", "R")] [scA, scB]).run
+      [0, 1, 0, 1, 0, 1, 0, 1, 0, 1, 0, 1, 0, 0, 0, 0, 0, 0, 0, 0, 0]).threads.map (·.reads)
+    = [[some "FILL", some "inner-x", some "AUTO", some "A", some "AUTO", some "tA", some "R"],
+       [some "B", some "b1", some "AUTO"]] := by decide
+-- … and it is not true of a heap discipline in which a call writes where another reads: were `set`
+-- allowed to reach the default scope (depth = the last map), B would read A's binding
+example : lookupChain (writeFrame [⟨[("registry", "R")]⟩] 0 "x" "A") [0] "x" = some "A" := by decide
+
+end scopes
 
 /-! ### re-entry with the scope of the running call handed in
 
@@ -274,11 +352,69 @@ end reentryExamples
     lookup fails with KeyError — the call's outcome differs from its outcome alone. -/
 theorem c20_register_race_counterexample :
     let reg : Reg := fun key => if key = ("dict", "get") then some "getitem" else none
-    let call := compile 10 reg (.handler ("dict", "get") fun r => .ret (match r with
-      | .ok (.found h) => .val h | .ok .unregistered => .val "unregistered" | .error e => .err e ""))
+    let call := compile 10 reg (.handler ("dict", "get") true fun r => .ret (match r with
+      | .ok (.found h) => .val h | .ok _ => .val "unregistered" | .error e => .err e ""))
     let registrar := Prog.tcReset (.done (.val "registered"))
     (((Sys.mk {} [call, registrar]).run [0, 0, 1, 0]).threads[0]?).bind Prog.outcome? = some (.err "KeyError" "") ∧
     (((Sys.mk {} [call, registrar]).run [0, 0, 0, 1]).threads[0]?).bind Prog.outcome? = some (.val "getitem") := by
+  decide
+
+/-- the call `glom(5, [T])`, as far as the handler memo can see it: `get_handler('iterate', 5)`
+    (raising), and the outcome that follows from what it returns -/
+private def iterCall (lookup : TKey → Bool → (Except Err HRes → Prog) → Prog) : Prog :=
+  lookup ("int", "iterate") true fun r => .done (match r with
+    | .ok (.found h) => .val h
+    | .ok .unregistered => .err "UnregisteredTarget" ""
+    | .ok .noHandler => .err "TypeError" "'bool' object is not callable"
+    | .error e => .err e "")
+/-- user code asks the registry whether a type can be iterated: `get_handler('iterate', 5, raise_exc=False)` -/
+private def probeCall (lookup : TKey → Bool → (Except Err HRes → Prog) → Prog) : Prog :=
+  lookup ("int", "iterate") false fun _ => .done (.val "probed")
+
+/-- **Counter-example: a remembered `False` handed out as it is (`get_handler` before /repo
+    8b51f6e, audit finding G6).**  A `raise_exc=False` lookup — made by user code in another call —
+    stores `False` in the memo; with the final lookup returned unchecked, a later raising lookup of
+    the same type gets `False` and the call ends in `TypeError: 'bool' object is not callable`
+    instead of `UnregisteredTarget`, its outcome alone.  With the code as it is (`getHandlerP`: the
+    entry read last is re-checked) the call ends as alone under the same schedule, and under the one
+    in which the probe runs between the call's membership test and its raise. -/
+theorem c20_remembered_false_counterexample :
+    let reg : Reg := fun _ => none
+    (((Sys.mk {} [iterCall (getHandlerNoRecheck reg), probeCall (getHandlerNoRecheck reg)]).run [1, 1, 1, 0, 0]).threads[0]?).bind
+      Prog.outcome? = some (.err "TypeError" "'bool' object is not callable") ∧
+    (((Sys.mk {} [iterCall (getHandlerNoRecheck reg)]).run [0, 0]).threads[0]?).bind Prog.outcome?
+      = some (.err "UnregisteredTarget" "") ∧
+    (((Sys.mk {} [iterCall (getHandlerP reg), probeCall (getHandlerP reg)]).run [1, 1, 1, 0, 0]).threads[0]?).bind
+      Prog.outcome? = some (.err "UnregisteredTarget" "") ∧
+    (((Sys.mk {} [iterCall (getHandlerP reg), probeCall (getHandlerP reg)]).run [0, 1, 1, 1, 0]).threads[0]?).bind
+      Prog.outcome? = some (.err "UnregisteredTarget" "") := by
+  decide
+
+/-- **The repr guard between threads (`c20_repr_guard_threads`).**  Whatever other threads are
+    rendering at the moment (any keys of other threads in the shared `_active` set), a render in
+    thread `tid` produces what it produces with an empty set: the guard `(id(x), get_ident())` that
+    `c20_facts_wf` demands lets no thread see another thread's rendering (seeded changes C20-s3, s9). -/
+theorem c20_repr_guard_threads (tid call : Nat) (c : RChain) (active : List (Nat × Nat × Nat))
+    (h : ∀ k ∈ active, k.2.1 ≠ tid) :
+    renderGuarded false active tid call c = renderGuarded false [] tid call c := by
+  apply renderGuarded_congr
+  intro k hk
+  have : ¬ k ∈ active := fun hm => h k hm hk
+  simp [this]
+
+/-- **Counter-example: the same guard WITHIN a thread (audit finding G1, known finding
+    `reentry_from_repr_during_render`).**  The `__repr__` of a target makes a glom call on the very
+    object while the outer call's error trace is rendered, and renders that call's error: the inner
+    trace shows `...` for its target — the guard finds the object active in this thread — where the
+    same call made alone shows the object.  NOT repaired in /repo.  A guard that also knew which
+    glom call it serves (`perCall`) would show the object, and would still cut a container that
+    contains itself. -/
+theorem c20_repr_guard_reentry_counterexample :
+    renderGuarded false [] 0 0 (.node 1 "Tgt()" .call (.leaf 1 "Tgt()")) = ["Tgt()", "..."] ∧
+    renderGuarded false [] 0 1 (.leaf 1 "Tgt()") = ["Tgt()"] ∧
+    renderGuarded true [] 0 0 (.node 1 "Tgt()" .call (.leaf 1 "Tgt()")) = ["Tgt()", "Tgt()"] ∧
+    renderGuarded true [] 0 0 (.node 1 "[" .item (.leaf 1 "[")) = ["[", "..."] ∧
+    renderGuarded false [] 0 0 (.node 1 "Tgt()" .call (.leaf 2 "Tgt()")) = ["Tgt()", "Tgt()"] := by
   decide
 
 /-- **Checker theorem** — the form in which the property is evaluated on the implementation:
@@ -337,7 +473,7 @@ theorem c20_model_checks (max : Nat) (reg : Reg) (evs : List Ev) (sh0 : Sh) (h0 
   · simp only [observe, List.all_eq_true, List.mem_map, forall_exists_index, and_imp]
     intro e x hx he; subst he; simp only [beq_iff_eq]; rw [hinv.1 x hx]
   · simp only [observe, List.all_eq_true, List.mem_map, forall_exists_index, and_imp]
-    intro e x hx he; subst he; simp only [beq_iff_eq]; rw [hinv.2 x hx]; rfl
+    intro e x hx he; subst he; simp only [beq_iff_eq]; rw [hinv.2 x hx]
 
 /-! ### one spec object with a container literal in argument position, used by several calls
 
@@ -399,6 +535,7 @@ theorem c20_arg_alone_finishes (fast : Bool) (fuel : Nat) (lits : Heap) (t0 : Th
     intro t h
     unfold Thread.step
     split
+    · next he => simp [he]
     · next he => simp [he]
     · next he => simp [he]
     · next he => simp only [he]; split <;> simp
@@ -490,6 +627,21 @@ theorem c20_arg_fastpath_counterexample :
       = [[["list(", "'A'", ")"]], [["list(", "'B'", ")"]]]) ∧
     ((Arg.Sys.mk accLits [accCall "'A'", accCall "'B'"]).run false 8 [0, 0, 0, 1, 1, 1, 1, 0]).heap[0]?
       = some ⟨.list, []⟩ := by
+  decide +kernel
+
+/-- **Counter-example: a mutable default of `Vars` (audit finding G2; known finding
+    `vars_mutable_default_persists`, recorded under C07).**  `S(v=Vars(acc=[]))`: `Vars.glomit` builds
+    `ScopeVars(base, defaults)` without `arg_val`, so every call that uses the spec object receives
+    the list inside the spec (`bindRaw`): run one after the other, the second call reads the first
+    call's push, and the literal of the spec is no longer empty.  `FlatOp` excludes the operation:
+    the theorems above speak about arguments that go through `arg_val`. -/
+theorem c20_vars_default_counterexample :
+    let call : String → Thread := fun id => { ev := fun s => s, ops := [.bindRaw (.ref 0), .push [] id, .yield, .read] }
+    (((Arg.Sys.mk accLits [call "'A'", call "'B'"]).run false 8 [0, 0, 0, 0, 1, 1, 1, 1]).threads.map (·.out)
+      = [[["list(", "'A'", ")"]], [["list(", "'A'", "'B'", ")"]]]) ∧
+    ((Arg.Sys.mk accLits [call "'A'", call "'B'"]).run false 8 [0, 0, 0, 0, 1, 1, 1, 1]).heap[0]?
+      = some ⟨.list, [.leaf "'A'", .leaf "'B'"]⟩ ∧
+    (privRun (fun s => s) accLits [.bind (.ref 0), .push [] "'B'", .yield, .read] {}).out = [["list(", "'B'", ")"]] := by
   decide +kernel
 
 -- the hypotheses of `c20_arg_noninterference` are satisfiable by a non-trivial input …
@@ -746,7 +898,7 @@ end errObject
 private def regEx : Reg := fun key => if key = ("dict", "get") then some "getitem" else none
 
 /-- two calls parsing the same text and looking up the same handler, with yield points -/
-private def evA : Ev := .parse "a.b" fun r => .user "y0" (.handler ("dict", "get") fun h => .ret (match r, h with
+private def evA : Ev := .parse "a.b" fun r => .user "y0" (.handler ("dict", "get") true fun h => .ret (match r, h with
   | .ok _, .ok (.found g) => .val g | _, _ => .err "E" ""))
 private def evB : Ev := .user "y0" (.parse "a.b" fun r => .nested (.parse "zz" fun _ => .ret (.err "PathAccessError" "zz"))
   fun inner => .ret (match r, inner with | .ok _, .err c _ => .val c | _, _ => .err "E" ""))
@@ -757,8 +909,5 @@ example : Inv regEx {} := ⟨by simp, by simp⟩
 example : (((Sys.mk {} [compile 10 regEx evA, compile 10 regEx evB]).run [0, 1, 1, 0, 1, 0, 1, 0, 0, 1, 1, 1, 0, 0, 0, 1, 1, 1, 1]).threads.map Prog.outcome?)
     = [some (denote regEx evA), some (denote regEx evB)] := by decide
 example : denote regEx evA = .val "getitem" ∧ denote regEx evB = .val "PathAccessError" := by decide
--- a nested call leaves the outer frames alone although it writes its own (S-assign, MODE …)
-example : (execOps [⟨[]⟩] [0] [.call [.child [("T", "t")], .set 1 "globals" "x=1",
-      .call [.child [], .set 0 "MODE" "FILL", .set 1 "CUR_ERROR" "e"], .pop]]).1.take 1 = [⟨[]⟩] := by decide
 
 end Glom.Props.C20
